@@ -217,36 +217,169 @@ theorem frames_two {t : Nat} {b1 b2 : Bytes} (h1 : IsFrame t b1) (h2 : IsFrame t
       simp [bgpFrames, e1, e2]
 /-! ### embedded PDUs -/
 
-theorem checkUpdatePdus_ok (who : String) (tbl : Tbl) (ap : Bool) (mon c : Content) (b : Bytes)
-    (hf : IsFrame 2 b) (hl : lookup tbl ap b = some c) (hc : carries ap mon [c] = true) :
-    checkUpdatePdus who tbl ap mon b = none := by
-  simp [checkUpdatePdus, frames_single hf, hl, hc]
+theorem take?_some {n : Nat} {s a r : Bytes} (h : take? n s = some (a, r)) :
+    n ≤ s.length ∧ a = s.take n ∧ r = s.drop n := by
+  unfold take? at h
+  split at h
+  · rename_i hle
+    simp only [Option.some.injEq, Prod.mk.injEq] at h
+    exact ⟨hle, h.1.symm, h.2.symm⟩
+  · cases h
 
-theorem checkPdusExact_one (who : String) (tbl : Tbl) (t : Nat) (mon : Content) (b : Bytes)
-    (hf : IsFrame t b) (hl : lookup tbl false b = some mon) :
-    checkPdusExact who tbl t [mon] b = none := by
-  simp [checkPdusExact, frames_single hf, hl]
+/-- what a successful read of one frame says, in the terms of the model's `bgpFrameLen` -/
+theorem bgpFrame?_spec {b f rest : Bytes} {t : Nat} (h : bgpFrame? b = some ((f, t), rest)) :
+    ∃ n, 19 ≤ n ∧ n ≤ b.length ∧ f = b.take n ∧ rest = b.drop n ∧ bgpFrameLen b = n := by
+  unfold bgpFrame? at h
+  cases h16 : take? 16 b with
+  | none => rw [h16] at h; cases h
+  | some p1 =>
+    obtain ⟨m, s1⟩ := p1
+    rw [h16] at h; simp only [] at h
+    cases h2 : take? 2 s1 with
+    | none => rw [h2] at h; cases h
+    | some p2 =>
+      obtain ⟨l, s2⟩ := p2
+      rw [h2] at h; simp only [] at h
+      cases h1 : take? 1 s2 with
+      | none => rw [h1] at h; cases h
+      | some p3 =>
+        obtain ⟨ty, s3⟩ := p3
+        rw [h1] at h; simp only [] at h
+        split at h
+        · rename_i hc
+          cases hl : take? (be l) b with
+          | none => rw [hl] at h; cases h
+          | some p4 =>
+            obtain ⟨f', r0⟩ := p4
+            rw [hl] at h
+            simp only [Option.some.injEq, Prod.mk.injEq] at h
+            obtain ⟨⟨rfl, _⟩, rfl⟩ := h
+            obtain ⟨g16, _, e1⟩ := take?_some h16
+            obtain ⟨g2, el, e2⟩ := take?_some h2
+            obtain ⟨g1, _, _⟩ := take?_some h1
+            obtain ⟨gl, ef, er⟩ := take?_some hl
+            subst e1
+            have hlen : (b.drop 16).length = b.length - 16 := by simp
+            have hb19 : 19 ≤ b.length := by
+              have : (s2).length = (b.drop 16).length - 2 := by rw [e2]; simp; omega
+              omega
+            -- the two length octets
+            cases hd : b.drop 16 with
+            | nil => rw [hd] at g2; simp at g2
+            | cons x t1 =>
+              cases t1 with
+              | nil => rw [hd] at g2; simp at g2
+              | cons y t2 =>
+                have hl2 : l = [x, y] := by rw [el, hd]; rfl
+                have hbe : be l = x * 256 + y := by rw [hl2]; simp [be]
+                refine ⟨be l, hc.2.1, gl, ef, er, ?_⟩
+                have h19 := hc.2.1
+                simp only [bgpFrameLen, hd]
+                rw [if_neg (by omega), ← hbe, if_neg (by omega)]
+        · cases h
 
-theorem checkPdusExact_two (who : String) (tbl : Tbl) (t : Nat) (m1 m2 : Content) (b1 b2 : Bytes)
-    (h1 : IsFrame t b1) (h2 : IsFrame t b2) (l1 : lookup tbl false b1 = some m1)
-    (l2 : lookup tbl false b2 = some m2) :
-    checkPdusExact who tbl t [m1, m2] (b1 ++ b2) = none := by
-  have e := frames_two h1 h2
-  simp only [List.length_append] at e
-  simp [checkPdusExact, e, l1, l2]
+theorem bgpFrames_nil (fuel : Nat) : bgpFrames fuel [] = some [] := by cases fuel <;> rfl
+
+/-- on a well-framed buffer the model's frame splitter finds the frames of the RFC 4271 reader -/
+theorem splitFrames_of_frames :
+    ∀ (fuel : Nat) (b : Bytes) (fs : List (Bytes × Nat)), bgpFrames fuel b = some fs → b ≠ [] →
+      ∀ fuel', b.length ≤ fuel' → splitFrames fuel' b = fs.map (·.1) := by
+  intro fuel
+  induction fuel with
+  | zero =>
+    intro b fs h hne
+    cases b with
+    | nil => exact absurd rfl hne
+    | cons x xs => simp [bgpFrames] at h
+  | succ fuel ih =>
+    intro b fs h hne fuel' hf
+    cases b with
+    | nil => exact absurd rfl hne
+    | cons x xs =>
+      simp only [bgpFrames] at h
+      cases hfr : bgpFrame? (x :: xs) with
+      | none => rw [hfr] at h; cases h
+      | some pr =>
+        obtain ⟨⟨f, t⟩, rest⟩ := pr
+        rw [hfr] at h
+        simp only [] at h
+        cases hrest : bgpFrames fuel rest with
+        | none => rw [hrest] at h; cases h
+        | some fs' =>
+          rw [hrest] at h
+          simp only [Option.map_some, Option.some.injEq] at h
+          subst h
+          obtain ⟨n, h19, hn, ef, er, hlen⟩ := bgpFrame?_spec hfr
+          cases fuel' with
+          | zero => simp at hf
+          | succ f' =>
+            simp only [splitFrames, hlen, ← ef, ← er]
+            by_cases hr : rest = []
+            · subst hr
+              rw [bgpFrames_nil] at hrest
+              cases hrest
+              simp
+            · rw [if_neg hr]
+              have hrl : rest.length ≤ f' := by
+                rw [er, List.length_drop]; omega
+              rw [ih rest fs' hrest hr f' hrl]
+              rfl
 
 /-! ### hypotheses on the embedded bytes (the real BGP encoder / decoder: C04's subject)
 
-`updOk`: the blob is ONE complete UPDATE frame and the repository's decoder (table) reads it back as the
-monitored content.  `pdusOk`: the blob is exactly the frames of type `t` decoding to `mons`. -/
+`updOk`: the blob is one or more complete UPDATE frames; the repository's decoder (table) reads each back as a
+piece of the monitored message (same family / next hop / attributes, at least one NLRI each while NLRI are
+missing) and the NLRI of all pieces are the monitored ones.  `pdusOk`: the blob is exactly the frames of type `t`
+decoding to `mons`. -/
+
+/-- shadow of `Spec.checkSeq` on the decoded contents of the frames -/
+def seqOk (ap : Bool) (mon : Content) : Nat → List (Nat × Bytes) → List Content → Bool
+  | 0, _, _ => false
+  | _ + 1, _, [] => false
+  | fuel + 1, acc, c :: cs =>
+    compat mon c &&
+      (if (acc ++ entsOf c).length < (entsOf mon).length then !(entsOf c).isEmpty && seqOk ap mon fuel (acc ++ entsOf c) cs
+       else cs.isEmpty && entsEq ap (acc ++ entsOf c) (entsOf mon))
+
+def lookAll (tbl : Tbl) (ap : Bool) : List (Bytes × Nat) → Option (List (Bytes × Content))
+  | [] => some []
+  | f :: fs =>
+    match lookup tbl ap f.1, lookAll tbl ap fs with
+    | some c, some r => some ((f.1, c) :: r)
+    | _, _ => none
+
+theorem lookAll_spec {tbl : Tbl} {ap : Bool} :
+    ∀ {fs : List (Bytes × Nat)} {fcs : List (Bytes × Content)}, lookAll tbl ap fs = some fcs →
+      fcs.map (·.1) = fs.map (·.1) ∧ ∀ p ∈ fcs, lookup tbl ap p.1 = some p.2 := by
+  intro fs
+  induction fs with
+  | nil => intro fcs h; simp [lookAll] at h; subst h; simp
+  | cons f fs ih =>
+    intro fcs h
+    simp only [lookAll] at h
+    cases hl : lookup tbl ap f.1 with
+    | none => simp [hl] at h
+    | some c =>
+      cases hr : lookAll tbl ap fs with
+      | none => simp [hl, hr] at h
+      | some r =>
+        simp [hl, hr] at h
+        subst h
+        obtain ⟨h1, h2⟩ := ih hr
+        refine ⟨by simp [h1], ?_⟩
+        intro p hp
+        rcases List.mem_cons.mp hp with rfl | hm
+        · exact hl
+        · exact h2 p hm
 
 def updOk (tbl : Tbl) (ap : Bool) (mon : Content) (b : Bytes) : Bool :=
   match bgpFrames (b.length + 1) b with
-  | some [(f, 2)] =>
-    (match lookup tbl ap f with
-     | some c => carries ap mon [c]
-     | none => false)
-  | _ => false
+  | some fs =>
+    !fs.isEmpty && fs.all (fun f => decide (IsFrame 2 f.1) && decide (f.1.length < 2147483648)) &&
+      (match lookAll tbl ap fs with
+       | some fcs => seqOk ap mon ((entsOf mon).length + 1) [] (fcs.map (·.2))
+       | none => false)
+  | none => false
 
 def pdusOk (tbl : Tbl) (t : Nat) (mons : List Content) (b : Bytes) : Bool :=
   match bgpFrames (b.length + 1) b with
@@ -257,18 +390,52 @@ def pdusOk (tbl : Tbl) (t : Nat) (mons : List Content) (b : Bytes) : Bool :=
        | none => false)
   | none => false
 
-theorem checkUpdatePdus_of {who : String} {tbl : Tbl} {ap : Bool} {mon : Content} {b : Bytes}
-    (h : updOk tbl ap mon b = true) : checkUpdatePdus who tbl ap mon b = none := by
-  unfold updOk at h
-  unfold checkUpdatePdus
-  split at h
-  · rename_i f hf
-    rw [hf]
-    split at h
-    · rename_i c hc
-      simp [hc, h]
-    · cases h
-  · cases h
+theorem readOnePdu_ok (who : String) (tbl : Tbl) (ap : Bool) (f : Bytes) (c : Content) (hf : IsFrame 2 f)
+    (hl : lookup tbl ap f = some c) : readOnePdu who tbl ap f = .ok c := by
+  simp [readOnePdu, frames_single hf, hl]
+
+/-- the record-sequence checker accepts the records of the frames, whatever reads one record -/
+theorem checkSeq_ok (rd : Bytes → Except String (Content × Bytes)) (enc : Bytes → Bytes) (who : String) (ap : Bool)
+    (mon : Content) :
+    ∀ (fcs : List (Bytes × Content)), (∀ p ∈ fcs, ∀ rest, rd (enc p.1 ++ rest) = .ok (p.2, rest)) →
+      ∀ (fuel : Nat) (acc : List (Nat × Bytes)) (rest : Bytes), seqOk ap mon fuel acc (fcs.map (·.2)) = true →
+        checkSeq rd who ap mon fuel acc ((fcs.map (·.1)).flatMap enc ++ rest) = .ok rest := by
+  intro fcs
+  induction fcs with
+  | nil => intro _ fuel acc rest h; cases fuel <;> simp [seqOk] at h
+  | cons p ps ih =>
+    intro hrd fuel acc rest h
+    cases fuel with
+    | zero => simp [seqOk] at h
+    | succ fuel =>
+      simp only [List.map_cons, seqOk, Bool.and_eq_true] at h
+      obtain ⟨hc, hrest⟩ := h
+      simp only [List.map_cons, List.flatMap_cons, List.append_assoc, checkSeq]
+      rw [hrd p (List.mem_cons_self ..)]
+      simp only [hc, Bool.not_true, Bool.false_eq_true, if_false]
+      by_cases hlt : (acc ++ entsOf p.2).length < (entsOf mon).length
+      · rw [if_pos hlt] at hrest ⊢
+        simp only [Bool.and_eq_true, Bool.not_eq_true'] at hrest
+        rw [hrest.1]
+        simp only [Bool.false_eq_true, if_false]
+        exact ih (fun q hq => hrd q (List.mem_cons_of_mem _ hq)) fuel _ rest hrest.2
+      · rw [if_neg hlt] at hrest ⊢
+        simp only [Bool.and_eq_true, List.isEmpty_iff] at hrest
+        have hps : ps = [] := by
+          cases ps with
+          | nil => rfl
+          | cons q qs => simp at hrest
+        subst hps
+        simp [hrest.2]
+
+theorem readRm_ok (tbl : Tbl) (h : PeerHdr) (ap : Bool) (f : Bytes) (c : Content) (hh : hdrDom h = true)
+    (hf : IsFrame 2 f) (hl : lookup tbl ap f = some c) (hlen : f.length < 2147483648) (rest : Bytes) :
+    readRm tbl h ap (bmpMsg 0 (h.encode ++ f) ++ rest) = .ok (c, rest) := by
+  have hlen' : 6 + (h.encode ++ f).length < 4294967296 := by
+    simp [length_encode_hdr h hh]; omega
+  simp only [readRm]
+  rw [readBmpCommon_bmpMsg 0 _ rest (by omega) hlen']
+  simp [readPph_encode h hh, checkPph_ok h hh, readOnePdu_ok "rm" tbl ap f c hf hl]
 
 theorem checkPdusExact_of {who : String} {tbl : Tbl} {t : Nat} {mons : List Content} {b : Bytes}
     (h : pdusOk tbl t mons b = true) : checkPdusExact who tbl t mons b = none := by
@@ -294,28 +461,59 @@ theorem checkPdusExact_of {who : String} {tbl : Tbl} {t : Nat} {mons : List Cont
 
 /-- hypotheses on the embedded bytes of one record -/
 def embOk (tbl : Tbl) : Rec → Bool
-  | .bmpRm _ ap (some b) mon => decide (b.length < 65536) && updOk tbl ap mon b
+  | .bmpRm _ ap (some b) mon => updOk tbl ap mon b
   | .bmpUp _ _ _ _ (some b) mL mR => decide (b.length < 131072) && pdusOk tbl 1 [mL, mR] b
   | .bmpDown _ (.localNotif (some b) mon) => decide (b.length < 65536) && pdusOk tbl 3 [mon] b
   | .bmpDown _ (.remoteNotif (some b) mon) => decide (b.length < 65536) && pdusOk tbl 3 [mon] b
-  | .mrtMp _ ap (some b) mon => decide (b.length < 65536) && updOk tbl ap mon b
+  | .mrtMp _ ap (some b) mon => updOk tbl ap mon b
   | _ => true
+
+/-- what `updOk` provides: the frames with their decoded contents -/
+theorem updOk_spec {tbl : Tbl} {ap : Bool} {mon : Content} {b : Bytes} (h : updOk tbl ap mon b = true) :
+    ∃ fcs : List (Bytes × Content), splitFrames b.length b = fcs.map (·.1) ∧
+      (∀ p ∈ fcs, IsFrame 2 p.1 ∧ p.1.length < 2147483648 ∧ lookup tbl ap p.1 = some p.2) ∧
+      seqOk ap mon ((entsOf mon).length + 1) [] (fcs.map (·.2)) = true := by
+  unfold updOk at h
+  cases hfr : bgpFrames (b.length + 1) b with
+  | none => rw [hfr] at h; cases h
+  | some fs =>
+    rw [hfr] at h
+    simp only [Bool.and_eq_true] at h
+    obtain ⟨⟨hne, hall⟩, hlk⟩ := h
+    cases hla : lookAll tbl ap fs with
+    | none => rw [hla] at hlk; cases hlk
+    | some fcs =>
+      rw [hla] at hlk
+      obtain ⟨hmap, hlook⟩ := lookAll_spec hla
+      have hbne : b ≠ [] := by
+        intro e; subst e
+        rw [bgpFrames_nil] at hfr
+        cases hfr
+        simp at hne
+      refine ⟨fcs, ?_, ?_, hlk⟩
+      · rw [splitFrames_of_frames _ b fs hfr hbne b.length (Nat.le_refl _), hmap]
+      · intro p hp
+        have hp1 : p.1 ∈ fs.map (·.1) := by rw [← hmap]; exact List.mem_map_of_mem hp
+        obtain ⟨f, hf, hfe⟩ := List.mem_map.mp hp1
+        have := List.all_eq_true.mp hall f hf
+        simp only [Bool.and_eq_true, decide_eq_true_eq] at this
+        rw [hfe] at this
+        exact ⟨this.1, this.2, hlook p hp⟩
 
 /-! ### BMP records -/
 
 theorem checkRec_bmpRm (tbl : Tbl) (np : Option Nat) (h : PeerHdr) (ap : Bool) (b : Bytes) (mon : Content)
     (hd : recDom np (.bmpRm h ap (some b) mon) = true) (he : embOk tbl (.bmpRm h ap (some b) mon) = true)
     (rest : Bytes) :
-    checkRec tbl np (.bmpRm h ap (some b) mon) (bmpMsg 0 (h.encode ++ b) ++ rest) = .ok rest := by
+    checkRec tbl np (.bmpRm h ap (some b) mon)
+      (((splitFrames b.length b).flatMap fun f => bmpMsg 0 (h.encode ++ f)) ++ rest) = .ok rest := by
   simp only [recDom, Bool.and_eq_true] at hd
-  simp only [embOk, Bool.and_eq_true, decide_eq_true_eq] at he
   have hh := hd.1.1
-  have hlen : 6 + (h.encode ++ b).length < 4294967296 := by
-    simp [length_encode_hdr h hh]; omega
-  simp only [checkRec, isBmp, if_true]
-  rw [readBmpCommon_bmpMsg 0 _ rest (by omega) hlen]
-  simp only [bmpType, checkBmpBody, readPph_encode h hh, checkPph_ok h hh, checkUpdatePdus_of he.2]
-  simp
+  obtain ⟨fcs, hsplit, hfacts, hseq⟩ := updOk_spec he
+  simp only [checkRec, hsplit]
+  exact checkSeq_ok (readRm tbl h ap) (fun f => bmpMsg 0 (h.encode ++ f)) "rm" ap mon fcs
+    (fun p hp rest' => readRm_ok tbl h ap p.1 p.2 hh (hfacts p hp).1 (hfacts p hp).2.2 (hfacts p hp).2.1 rest')
+    _ [] rest hseq
 
 theorem checkRec_bmpUp (tbl : Tbl) (np : Option Nat) (h : PeerHdr) (la : Ip) (lp rp : Nat) (b : Bytes)
     (mL mR : Content) (hd : recDom np (.bmpUp h la lp rp (some b) mL mR) = true)
@@ -494,14 +692,15 @@ theorem readMrtCommon_mrtRecord (ts code sub : Nat) (body rest : Bytes) (hts : t
   rw [be_u32_lt hl, take?_append rfl]
   simp only [be_u32_lt hts, be_u16_lt hc, be_u16_lt hs]
 
-theorem checkBgp4mp_ok (tbl : Tbl) (h : MpHdr) (ap : Bool) (b : Bytes) (mon : Content)
-    (hd : recDom none (.mrtMp h ap (some b) mon) = true) (hu : updOk tbl ap mon b = true) :
-    checkBgp4mp tbl h ap mon (mpSubtype h.asn4 ap) (h.encode ++ b) = none := by
+theorem readBgp4mp_ok (tbl : Tbl) (h : MpHdr) (ap : Bool) (b : Bytes) (mon c : Content) (emb : Option Bytes)
+    (hd : recDom none (.mrtMp h ap emb mon) = true) (hf : IsFrame 2 b) (hlk : lookup tbl ap b = some c) :
+    readBgp4mp tbl h ap (mpSubtype h.asn4 ap) (h.encode ++ b) = .ok c := by
+  have hu := readOnePdu_ok "mrt" tbl ap b c hf hlk
   simp only [recDom, Bool.and_eq_true, decide_eq_true_eq] at hd
   obtain ⟨⟨⟨⟨⟨⟨⟨⟨h4, hra⟩, hla⟩, hif⟩, hrw⟩, hlw⟩, hfam⟩, _⟩, _⟩ := hd
   have hsub : bgp4mpSubtype (mpSubtype h.asn4 ap) = some (4, ap) := by
     cases ap <;> simp [mpSubtype, bgp4mpSubtype]
-  simp only [checkBgp4mp]
+  simp only [readBgp4mp]
   rw [hsub]
   simp only [MpHdr.encode, h4, if_true, List.append_assoc]
   rw [take?_append (length_u32 _)]; simp only []
@@ -522,7 +721,7 @@ theorem checkBgp4mp_ok (tbl : Tbl) (h : MpHdr) (ap : Bool) (b : Bytes) (mon : Co
       rw [take?_append hlw]; simp only []
       have c2 : be (u32 h.rasn) = h.rasn ∧ be (u32 h.lasn) = h.lasn := ⟨be_u32_lt hra, be_u32_lt hla⟩
       have c3 : be (u16 h.ifidx) = h.ifidx := be_u16_lt hif
-      simp [firstFail, c2, c3, Ip.isV6, Ip.bytes, checkUpdatePdus_of hu]
+      simp [firstFail, c2, c3, Ip.isV6, Ip.bytes, hu]
   | v6 a =>
     cases hl : h.laddr with
     | v4 l => rw [hr, hl] at hfam; cases hfam
@@ -538,26 +737,37 @@ theorem checkBgp4mp_ok (tbl : Tbl) (h : MpHdr) (ap : Bool) (b : Bytes) (mon : Co
       rw [take?_append hlw]; simp only []
       have c2 : be (u32 h.rasn) = h.rasn ∧ be (u32 h.lasn) = h.lasn := ⟨be_u32_lt hra, be_u32_lt hla⟩
       have c3 : be (u16 h.ifidx) = h.ifidx := be_u16_lt hif
-      simp [firstFail, c2, c3, Ip.isV6, Ip.bytes, checkUpdatePdus_of hu]
+      simp [firstFail, c2, c3, Ip.isV6, Ip.bytes, hu]
 
 theorem length_encode_mph (h : MpHdr) (hr : ipWf h.raddr = true) (hl : ipWf h.laddr = true) :
     h.encode.length ≤ 44 := by
   cases ha : h.raddr <;> cases hb : h.laddr <;> cases h4 : h.asn4 <;>
     simp_all [MpHdr.encode, ipWf] <;> omega
 
+theorem readMp_ok (tbl : Tbl) (h : MpHdr) (ap : Bool) (f : Bytes) (mon c : Content) (emb : Option Bytes)
+    (hd : recDom none (.mrtMp h ap emb mon) = true) (hf : IsFrame 2 f) (hl : lookup tbl ap f = some c)
+    (hlen : f.length < 2147483648) (rest : Bytes) :
+    readMp tbl h ap (mrtRecord 0 16 (mpSubtype h.asn4 ap) (h.encode ++ f) ++ rest) = .ok (c, rest) := by
+  have hd0 := hd
+  simp only [recDom, Bool.and_eq_true, decide_eq_true_eq] at hd
+  have hml := length_encode_mph h hd.1.1.1.1.2 hd.1.1.1.2
+  have hsub : mpSubtype h.asn4 ap < 65536 := by cases ap <;> simp [mpSubtype]
+  simp only [readMp]
+  rw [readMrtCommon_mrtRecord 0 16 _ _ rest (by omega) (by omega) hsub (by simp; omega)]
+  simp [readBgp4mp_ok tbl h ap f mon c emb hd0 hf hl]
+
 theorem checkRec_mrtMp (tbl : Tbl) (np : Option Nat) (h : MpHdr) (ap : Bool) (b : Bytes) (mon : Content)
     (hd : recDom np (.mrtMp h ap (some b) mon) = true) (he : embOk tbl (.mrtMp h ap (some b) mon) = true)
     (rest : Bytes) :
     checkRec tbl np (.mrtMp h ap (some b) mon)
-      (mrtRecord 0 16 (mpSubtype h.asn4 ap) (h.encode ++ b) ++ rest) = .ok rest := by
+      (((splitFrames b.length b).flatMap fun f => mrtRecord 0 16 (mpSubtype h.asn4 ap) (h.encode ++ f)) ++ rest)
+      = .ok rest := by
   have hd' : recDom none (.mrtMp h ap (some b) mon) = true := hd
-  simp only [embOk, Bool.and_eq_true, decide_eq_true_eq] at he
-  simp only [recDom, Bool.and_eq_true, decide_eq_true_eq] at hd
-  have hml := length_encode_mph h hd.1.1.1.1.2 hd.1.1.1.2
-  have hsub : mpSubtype h.asn4 ap < 65536 := by cases ap <;> simp [mpSubtype]
-  simp only [checkRec, isBmp, Bool.false_eq_true, if_false]
-  rw [readMrtCommon_mrtRecord 0 16 _ _ rest (by omega) (by omega) hsub (by simp; omega)]
-  simp [checkBgp4mp_ok tbl h ap b mon hd' he.2]
+  obtain ⟨fcs, hsplit, hfacts, hseq⟩ := updOk_spec he
+  simp only [checkRec, hsplit]
+  exact checkSeq_ok (readMp tbl h ap) (fun f => mrtRecord 0 16 (mpSubtype h.asn4 ap) (h.encode ++ f)) "mrt" ap mon fcs
+    (fun p hp rest' => readMp_ok tbl h ap p.1 mon p.2 (some b) hd' (hfacts p hp).1 (hfacts p hp).2.2 (hfacts p hp).2.1 rest')
+    _ [] rest hseq
 
 /-! ### TABLE_DUMP_V2 PEER_INDEX_TABLE -/
 
@@ -1077,39 +1287,212 @@ theorem check_run (c : Case) (hd : inDomain c = true) (he : c.recs.all (embOk c.
   obtain ⟨w, hw, hc⟩ := checkRecs_ok c.tbl c.recs 0 none hd he
   simp [check, hd, run, hw, hc]
 
+/-! ### from readable hypotheses on the frames to `updOk` -/
+
+theorem entsEq_length {ap : Bool} {a b : List (Nat × Bytes)} (h : entsEq ap a b = true) : a.length = b.length := by
+  unfold entsEq at h
+  cases ap with
+  | true => simp at h; rw [h]
+  | false =>
+    simp at h
+    have := congrArg List.length h
+    simpa using this
+
+/-- concatenated complete frames are read back as exactly those frames -/
+theorem bgpFrames_flatten (t : Nat) :
+    ∀ (fs : List Bytes), (∀ f ∈ fs, IsFrame t f) → ∀ fuel, fs.length ≤ fuel →
+      bgpFrames fuel (fs.flatMap id) = some (fs.map (fun f => (f, t))) := by
+  intro fs
+  induction fs with
+  | nil => intro _ fuel _; simpa using bgpFrames_nil fuel
+  | cons f fs ih =>
+    intro hf fuel hfu
+    have hff := hf f (List.mem_cons_self ..)
+    have hne := hff.ne_nil
+    cases fuel with
+    | zero => simp at hfu
+    | succ k =>
+      have hex := bgpFrame?_extend hff (fs.flatMap id)
+      cases f with
+      | nil => exact absurd rfl hne
+      | cons x xs =>
+        simp only [List.flatMap_cons, id, List.cons_append] at hex ⊢
+        simp only [bgpFrames, hex]
+        rw [ih (fun g hg => hf g (List.mem_cons_of_mem _ hg)) k (by simp at hfu; omega)]
+        rfl
+
+theorem length_le_flatten (fs : List Bytes) (h : ∀ f ∈ fs, f ≠ []) : fs.length ≤ (fs.flatMap id).length := by
+  induction fs with
+  | nil => simp
+  | cons f fs ih =>
+    have := ih (fun g hg => h g (List.mem_cons_of_mem _ hg))
+    have hf : f.length ≥ 1 := by
+      cases f with
+      | nil => exact absurd rfl (h [] (List.mem_cons_self ..))
+      | cons _ _ => simp
+    simp only [List.flatMap_cons, id, List.length_append, List.length_cons]
+    omega
+
+theorem lookAll_of (tbl : Tbl) (ap : Bool) (t : Nat) :
+    ∀ (fcs : List (Bytes × Content)), (∀ p ∈ fcs, lookup tbl ap p.1 = some p.2) →
+      lookAll tbl ap (fcs.map (fun p => (p.1, t))) = some fcs := by
+  intro fcs
+  induction fcs with
+  | nil => intro _; rfl
+  | cons p ps ih =>
+    intro h
+    simp only [List.map_cons, lookAll, h p (List.mem_cons_self ..), ih (fun q hq => h q (List.mem_cons_of_mem _ hq))]
+
+theorem sum_chunks_ge (cs : List Content) (h : ∀ c ∈ cs, entsOf c ≠ []) :
+    cs.length ≤ (cs.flatMap entsOf).length := by
+  induction cs with
+  | nil => simp
+  | cons c cs ih =>
+    have := ih (fun d hd => h d (List.mem_cons_of_mem _ hd))
+    have hc : (entsOf c).length ≥ 1 := by
+      cases hec : entsOf c with
+      | nil => exact absurd hec (h c (List.mem_cons_self ..))
+      | cons _ _ => simp
+    simp only [List.flatMap_cons, List.length_append, List.length_cons]
+    omega
+
+/-- pieces that are all compatible, bring at least one NLRI each and together the monitored NLRI pass the
+    sequence check -/
+theorem seqOk_of_pieces (ap : Bool) (mon : Content) :
+    ∀ (cs : List Content) (acc : List (Nat × Bytes)) (fuel : Nat), cs ≠ [] → cs.length ≤ fuel →
+      (∀ c ∈ cs, compat mon c = true ∧ entsOf c ≠ []) →
+      entsEq ap (acc ++ cs.flatMap entsOf) (entsOf mon) = true → seqOk ap mon fuel acc cs = true := by
+  intro cs
+  induction cs with
+  | nil => intro _ _ h; exact absurd rfl h
+  | cons c cs ih =>
+    intro acc fuel _ hfu hall heq
+    cases fuel with
+    | zero => simp at hfu
+    | succ k =>
+      have hc := hall c (List.mem_cons_self ..)
+      have hlen := entsEq_length heq
+      simp only [List.flatMap_cons, List.length_append] at hlen
+      have hrest := sum_chunks_ge cs (fun d hd => (hall d (List.mem_cons_of_mem _ hd)).2)
+      simp only [seqOk, hc.1, Bool.true_and]
+      by_cases hlt : (acc ++ entsOf c).length < (entsOf mon).length
+      · rw [if_pos hlt]
+        have hcs : cs ≠ [] := by
+          intro e; subst e
+          simp at hlen hlt
+          omega
+        have hne : (entsOf c).isEmpty = false := by
+          cases hec : entsOf c with
+          | nil => exact absurd hec hc.2
+          | cons _ _ => rfl
+        simp only [hne, Bool.not_false, Bool.true_and]
+        apply ih (acc ++ entsOf c) k hcs (by simp at hfu; omega)
+          (fun d hd => hall d (List.mem_cons_of_mem _ hd))
+        simpa [List.flatMap_cons, List.append_assoc] using heq
+      · rw [if_neg hlt]
+        have hcs : cs = [] := by
+          cases cs with
+          | nil => rfl
+          | cons d ds =>
+            simp only [List.length_append, List.length_cons] at hlt hrest
+            omega
+        subst hcs
+        simpa [List.flatMap_cons] using heq
+
+/-- **the hypothesis of the round-trip theorems, from per-frame facts**: the blob is the concatenation of complete
+    UPDATE frames whose decoded contents are compatible pieces carrying together the monitored NLRI -/
+theorem updOk_of_frames (tbl : Tbl) (ap : Bool) (mon : Content) (fcs : List (Bytes × Content)) (hne : fcs ≠ [])
+    (hf : ∀ p ∈ fcs, IsFrame 2 p.1 ∧ p.1.length < 2147483648 ∧ lookup tbl ap p.1 = some p.2 ∧
+      compat mon p.2 = true ∧ entsOf p.2 ≠ [])
+    (hall : entsEq ap ((fcs.map (·.2)).flatMap entsOf) (entsOf mon) = true) :
+    updOk tbl ap mon ((fcs.map (·.1)).flatMap id) = true := by
+  have hfr : ∀ f ∈ fcs.map (·.1), IsFrame 2 f := by
+    intro f hfm
+    obtain ⟨p, hp, rfl⟩ := List.mem_map.mp hfm
+    exact (hf p hp).1
+  have hnn : ∀ f ∈ fcs.map (·.1), f ≠ [] := fun f hfm => (hfr f hfm).ne_nil
+  have hfl := length_le_flatten _ hnn
+  have hframes := bgpFrames_flatten 2 (fcs.map (·.1)) hfr (((fcs.map (·.1)).flatMap id).length + 1) (by omega)
+  have hmap : (fcs.map (·.1)).map (fun f => (f, 2)) = fcs.map (fun p => (p.1, 2)) := by simp
+  have hcl : (fcs.map (·.2)).length ≤ (entsOf mon).length + 1 := by
+    have h1 := sum_chunks_ge (fcs.map (·.2)) (by
+      intro c hc
+      obtain ⟨p, hp, rfl⟩ := List.mem_map.mp hc
+      exact (hf p hp).2.2.2.2)
+    have h2 := entsEq_length hall
+    omega
+  have hseq := seqOk_of_pieces ap mon (fcs.map (·.2)) [] ((entsOf mon).length + 1) (by simpa using hne) hcl
+    (by
+      intro c hc
+      obtain ⟨p, hp, rfl⟩ := List.mem_map.mp hc
+      exact ⟨(hf p hp).2.2.2.1, (hf p hp).2.2.2.2⟩)
+    (by simpa using hall)
+  unfold updOk
+  rw [hframes, hmap]
+  simp only [lookAll_of tbl ap 2 fcs (fun p hp => (hf p hp).2.2.1), hseq, Bool.and_true, Bool.and_eq_true]
+  refine ⟨by simpa using hne, ?_⟩
+  rw [List.all_eq_true]
+  intro x hx
+  obtain ⟨p, hp, rfl⟩ := List.mem_map.mp hx
+  simp [(hf p hp).1, (hf p hp).2.1]
+
 /-! ### proofs of the readable statements of `Props` -/
 
-theorem bmp_len_exact_proof (r : Rec) (w : Bytes) (hb : isBmp r = true) (he : r.encode = some w)
-    (hl : w.length < 4294967296) :
-    ∃ body, w.length = 6 + body.length ∧ be ((w.drop 1).take 4) = w.length ∧
-      ∀ rest, readBmpCommon (w ++ rest) = some (3, bmpType r, body, rest) := by
-  have key : ∀ code body, code < 256 → w = bmpMsg code body →
-      w.length = 6 + body.length ∧ be ((w.drop 1).take 4) = w.length ∧
-        ∀ rest, readBmpCommon (w ++ rest) = some (3, code, body, rest) := by
-    intro code body hc hw
-    have hlen : w.length = 6 + body.length := by subst hw; simp [bmpMsg]; omega
-    refine ⟨hlen, ?_, fun rest => by subst hw; exact readBmpCommon_bmpMsg code body rest hc (by omega)⟩
-    subst hw
-    simp only [bmpMsg, u8, List.cons_append, List.nil_append, List.drop_succ_cons, List.drop_zero]
-    rw [List.take_left' (length_u32 _), be_u32_lt (by omega)]
-    exact hlen.symm
+theorem splitFrames_single {b : Bytes} (hf : IsFrame 2 b) : splitFrames b.length b = [b] := by
+  have h := splitFrames_of_frames _ b _ (frames_single hf) hf.ne_nil b.length (Nat.le_refl _)
+  simpa using h
+
+theorem bmp_single_proof (tbl : Tbl) (np : Option Nat) (h : PeerHdr) (ap : Bool) (b : Bytes)
+    (mon c : Content) (hh : hdrDom h = true) (hm : monDom mon = true) (hlen : b.length < 2147483648)
+    (hf : IsFrame 2 b) (hl : lookup tbl ap b = some c) (hc : compat mon c = true)
+    (he : entsEq ap (entsOf c) (entsOf mon) = true) (rest : Bytes) :
+    checkRec tbl np (.bmpRm h ap (some b) mon) (bmpMsg 0 (h.encode ++ b) ++ rest) = .ok rest := by
+  have hlt : ¬ (entsOf c).length < (entsOf mon).length := by
+    have := entsEq_length he; omega
+  have hu : updOk tbl ap mon b = true := by
+    simp [updOk, frames_single hf, hf, hlen, lookAll, hl, seqOk, hc, hlt, he]
+  have := checkRec_bmpRm tbl np h ap b mon (by simp [recDom, hh, hm]) (by simpa [embOk] using hu) rest
+  rw [splitFrames_single hf] at this
+  simpa using this
+
+
+/-- one BMP message: its length field is its length; cutting the stream by it returns exactly the message -/
+theorem bmpMsg_len_exact (code : Nat) (body : Bytes) (hc : code < 256) (hl : 6 + body.length < 4294967296) :
+    (bmpMsg code body).length = 6 + body.length ∧
+      be (((bmpMsg code body).drop 1).take 4) = (bmpMsg code body).length ∧
+      ∀ rest, readBmpCommon (bmpMsg code body ++ rest) = some (3, code, body, rest) := by
+  have hlen : (bmpMsg code body).length = 6 + body.length := by simp [bmpMsg]; omega
+  refine ⟨hlen, ?_, fun rest => readBmpCommon_bmpMsg code body rest hc hl⟩
+  rw [hlen]
+  simp only [bmpMsg, u8, List.cons_append, List.nil_append, List.drop_succ_cons, List.drop_zero]
+  rw [List.take_left' (length_u32 _), be_u32_lt hl]
+
+/-- whatever a BMP record kind writes is a sequence of BMP messages of its type (one per embedded frame for Route
+    Monitoring, exactly one otherwise) -/
+theorem bmp_len_exact_proof (r : Rec) (w : Bytes) (hb : isBmp r = true) (he : r.encode = some w) :
+    ∃ bodies : List Bytes, w = bodies.flatMap (bmpMsg (bmpType r)) ∧
+      ((match r with | .bmpRm .. => False | _ => True) → bodies.length = 1) := by
   cases r with
   | bmpRm h ap emb mon =>
     cases emb with
     | none => cases he
-    | some b => exact ⟨_, key 0 _ (by omega) (by simpa [Rec.encode] using he.symm)⟩
+    | some b =>
+      refine ⟨(splitFrames b.length b).map (fun f => h.encode ++ f), ?_, fun hf => by cases hf⟩
+      simp only [Rec.encode, Option.map_some, Option.some.injEq] at he
+      rw [← he, List.flatMap_map]
+      rfl
   | bmpUp h la lp rp emb mL mR =>
     cases emb with
     | none => cases he
-    | some b => exact ⟨_, key 3 _ (by omega) (by simpa [Rec.encode] using he.symm)⟩
+    | some b => exact ⟨[_], by simpa [Rec.encode, bmpType] using he.symm, fun _ => rfl⟩
   | bmpDown h rs =>
     cases hr : rs.encode with
     | none => simp [Rec.encode, hr] at he
-    | some e => exact ⟨_, key 2 _ (by omega) (by simpa [Rec.encode, hr] using he.symm)⟩
-  | bmpInit tlvs => exact ⟨_, key 4 _ (by omega) (by simpa [Rec.encode] using he.symm)⟩
-  | bmpStats => exact ⟨_, key 1 _ (by omega) (by simpa [Rec.encode] using he.symm)⟩
-  | bmpTerm => exact ⟨_, key 5 _ (by omega) (by simpa [Rec.encode] using he.symm)⟩
-  | bmpMirror => exact ⟨_, key 6 _ (by omega) (by simpa [Rec.encode] using he.symm)⟩
+    | some e => exact ⟨[_], by simpa [Rec.encode, hr, bmpType] using he.symm, fun _ => rfl⟩
+  | bmpInit tlvs => exact ⟨[_], by simpa [Rec.encode, bmpType] using he.symm, fun _ => rfl⟩
+  | bmpStats => exact ⟨[_], by simpa [Rec.encode, bmpType] using he.symm, fun _ => rfl⟩
+  | bmpTerm => exact ⟨[_], by simpa [Rec.encode, bmpType] using he.symm, fun _ => rfl⟩
+  | bmpMirror => exact ⟨[_], by simpa [Rec.encode, bmpType] using he.symm, fun _ => rfl⟩
   | mrtMp => cases hb
   | tdPeers => cases hb
   | tdRib => cases hb
@@ -1129,34 +1512,37 @@ theorem bmp_vflag_iff_v6_proof (h : PeerHdr) (hd : hdrDom h = true) (rest : Byte
     · simp [decide_eq_false hv, firstFail] at this
   · simp [decide_eq_false hp, firstFail] at this
 
-theorem mrt_len_exact_proof (r : Rec) (w : Bytes) (hb : isBmp r = false) (he : r.encode = some w)
-    (hts : match r with | .tdPeers ts .. => ts < 4294967296 | .tdRib _ ts .. => ts < 4294967296 | _ => True)
-    (hl : w.length < 4294967296) :
-    ∃ ts ty st body, w.length = 12 + body.length ∧ be ((w.drop 8).take 4) = body.length ∧
-      ∀ rest, readMrtCommon (w ++ rest) = some (ts, ty, st, body, rest) := by
-  have key : ∀ ts code sub body, ts < 4294967296 → code < 65536 → sub < 65536 → w = mrtRecord ts code sub body →
-      w.length = 12 + body.length ∧ be ((w.drop 8).take 4) = body.length ∧
-        ∀ rest, readMrtCommon (w ++ rest) = some (ts, code, sub, body, rest) := by
-    intro ts code sub body h1 h2 h3 hw
-    have hlen : w.length = 12 + body.length := by subst hw; simp [mrtRecord]; omega
-    refine ⟨hlen, ?_, fun rest => by
-      subst hw; exact readMrtCommon_mrtRecord ts code sub body rest h1 h2 h3 (by omega)⟩
-    subst hw
-    simp only [mrtRecord, u32, u16, List.cons_append, List.nil_append, List.drop_succ_cons, List.drop_zero]
-    have : ∀ (a b c d : Nat) (t : Bytes), List.take 4 (a :: b :: c :: d :: t) = [a, b, c, d] := by
-      intros; rfl
-    rw [this]
-    have := be_u32_lt (n := body.length) (by omega)
-    simpa [u32] using this
+/-- one MRT record: its length field is the length of its body; cutting the stream by it returns the record -/
+theorem mrtRecord_len_exact (ts code sub : Nat) (body : Bytes) (h1 : ts < 4294967296) (h2 : code < 65536)
+    (h3 : sub < 65536) (hl : body.length < 4294967296) :
+    (mrtRecord ts code sub body).length = 12 + body.length ∧
+      be (((mrtRecord ts code sub body).drop 8).take 4) = body.length ∧
+      ∀ rest, readMrtCommon (mrtRecord ts code sub body ++ rest) = some (ts, code, sub, body, rest) := by
+  refine ⟨by simp [mrtRecord]; omega, ?_, fun rest => readMrtCommon_mrtRecord ts code sub body rest h1 h2 h3 hl⟩
+  simp only [mrtRecord, u32, u16, List.cons_append, List.nil_append, List.drop_succ_cons, List.drop_zero]
+  have : ∀ (a b c d : Nat) (t : Bytes), List.take 4 (a :: b :: c :: d :: t) = [a, b, c, d] := by
+    intros; rfl
+  rw [this]
+  have := be_u32_lt (n := body.length) hl
+  simpa [u32] using this
+
+/-- whatever an MRT record kind writes is a sequence of MRT records (one per embedded frame for BGP4MP, exactly
+    one for the table-dump kinds) -/
+theorem mrt_len_exact_proof (r : Rec) (w : Bytes) (hb : isBmp r = false) (he : r.encode = some w) :
+    ∃ (ts ty st : Nat) (bodies : List Bytes), w = bodies.flatMap (mrtRecord ts ty st) ∧ ty < 65536 ∧ st < 65536 ∧
+      ((match r with | .mrtMp .. => False | _ => True) → bodies.length = 1) := by
   cases r with
   | mrtMp h ap emb mon =>
     cases emb with
     | none => cases he
     | some b =>
       have hsub : mpSubtype h.asn4 ap < 65536 := by cases ap <;> simp [mpSubtype]
-      exact ⟨_, _, _, _, key 0 16 _ _ (by omega) (by omega) hsub (by simpa [Rec.encode] using he.symm)⟩
+      refine ⟨0, 16, mpSubtype h.asn4 ap, (splitFrames b.length b).map (fun f => h.encode ++ f), ?_, by omega, hsub,
+        fun hf => by cases hf⟩
+      simp only [Rec.encode, Option.map_some, Option.some.injEq] at he
+      rw [← he, List.flatMap_map]
   | tdPeers ts rid peers =>
-    exact ⟨_, _, _, _, key ts 13 1 _ hts (by omega) (by omega) (by simpa [Rec.encode] using he.symm)⟩
+    exact ⟨ts, 13, 1, [_], by simpa [Rec.encode] using he.symm, by omega, by omega, fun _ => rfl⟩
   | tdRib v6 ts seq mask addr ents =>
     cases hp : encodePrefix mask addr with
     | none => simp [Rec.encode, hp] at he
@@ -1165,7 +1551,7 @@ theorem mrt_len_exact_proof (r : Rec) (w : Bytes) (hb : isBmp r = false) (he : r
       | none => simp [Rec.encode, hp, hes] at he
       | some es =>
         have hsub : (if v6 then 4 else 2) < 65536 := by cases v6 <;> simp
-        exact ⟨_, _, _, _, key ts 13 _ _ hts (by omega) hsub (by simpa [Rec.encode, hp, hes] using he.symm)⟩
+        exact ⟨ts, 13, _, [_], by simpa [Rec.encode, hp, hes] using he.symm, by omega, hsub, fun _ => rfl⟩
   | bmpRm => cases hb
   | bmpUp => cases hb
   | bmpDown => cases hb
